@@ -4,9 +4,10 @@
 //! Oracles (implementation side, every set): the outcome is the same for every batch order,
 //! for repeated instances (fresh HashMap seeds) and for every parent-before-child incremental
 //! order; no panic; the output consists of marker tokens only.
-//! Renders of sets whose block nesting is cyclic through the chain (D13 class: unbounded
-//! recursion) are run in a child process (`c04 --child`) and recorded as CDiverge when the child
-//! dies or times out.
+//! Sets whose block nesting is cyclic through the chain (D13 class) are rejected by finalize since
+//! the D13 repair (the model ports that check). Should one be accepted again, its renders run in
+//! a child process (`c04 --child`) and are recorded as CDiverge when the child dies or times out.
+//! Oracle for D9: `{% include "T" %}` renders what render(T) renders.
 use serde_json::json;
 use std::collections::{BTreeMap, BTreeSet};
 use std::io::{Read, Write};
@@ -516,6 +517,7 @@ struct Stats {
     d13_seen: usize,
     d13_cap: usize,
     d13_skipped: usize,
+    include_checked: usize,
 }
 
 fn has_block_in_cap(ns: &[Node], in_cap: bool) -> bool {
@@ -558,16 +560,18 @@ fn push_set(sink: &mut Sink, meta: &mut Meta, rng: &mut Rng, st: &mut Stats, set
     let set = &sorted[..];
     let div = divergence_map(set);
     let any_div = div.values().any(|d| *d);
-    if any_div {
+    let ident: Vec<usize> = (0..n).collect();
+    let t_start = std::time::Instant::now();
+    let (tera, reg) = register_batch(set, &ident);
+    // accepted although the expansion is unbounded (must not happen since the D13 repair; such a
+    // set still goes to the model, its renders through a child process, at most d13_cap times)
+    if any_div && matches!(reg, IRes::Ok(_)) {
         if st.d13_seen >= st.d13_cap {
             st.d13_skipped += 1;
             return;
         }
         st.d13_seen += 1;
     }
-    let ident: Vec<usize> = (0..n).collect();
-    let t_start = std::time::Instant::now();
-    let (tera, reg) = register_batch(set, &ident);
     let child = |t: usize, b: Option<usize>| run_child(set, t, b);
     let base = observe(&tera, set, reg, &div, &child);
     T_BASE.fetch_add(t_start.elapsed().as_micros() as u64, std::sync::atomic::Ordering::Relaxed);
@@ -673,6 +677,31 @@ fn push_set(sink: &mut Sink, meta: &mut Meta, rng: &mut Rng, st: &mut Stats, set
                 if !o2.same(&base) {
                     meta.oracle_fail("incremental registration renders differently from batch registration", None,
                         json!({"order": ord, "batch": desc(&base), "incremental": desc(&o2)}));
+                    break;
+                }
+            }
+        }
+    }
+
+    // ---- oracle (D9): `{% include "T" %}` renders what render(T) renders, for every T of an accepted set
+    if !any_div && matches!(base.reg, IRes::Ok(_)) {
+        let mut tera = new_tera();
+        let mut srcs: Vec<(String, String)> = set.iter().map(|t| (format!("t{}", t.name), source(t))).collect();
+        for t in set {
+            srcs.push((format!("i{}", t.name), format!("{{% include \"t{}\" %}}", t.name)));
+        }
+        let r = guarded(|| tera.add_raw_templates(srcs.iter().map(|(n, s)| (n.as_str(), s.as_str()))).map(|_| String::new()));
+        meta.oracle_checks += 1;
+        if !matches!(r, Outcome::Ok(_)) {
+            meta.oracle_fail("adding includers of an accepted set is rejected", None, desc(&base));
+        } else {
+            let ctx = Context::new();
+            for (tn, expected) in &base.renders {
+                let got = to_ires(guarded(|| tera.render(&format!("i{tn}"), &ctx)));
+                st.include_checked += 1;
+                if !got.same(expected) {
+                    meta.oracle_fail("include of a template renders differently from rendering it", None,
+                        json!({"template": format!("t{tn}"), "include": got.json(), "set": desc(&base)}));
                     break;
                 }
             }
@@ -1071,7 +1100,7 @@ fn main() {
     let mut meta = Meta::default();
     let header = "From Coq Require Import List NArith.\nFrom TeraV Require Import Model.Value Model.Lineage Corr.CorrC04.\nImport ListNotations.";
     let mut sink = Sink::new(&args.out, "set", header, "check_set");
-    let mut st = Stats { sets: 0, accepted: 0, rejected: 0, d13_sets: 0, d13_child_runs: 0, orders_checked: 0, incr_checked: 0, renders: 0, block_renders: 0, d8_shape: 0, d13_seen: 0, d13_cap: if thorough { 40 } else { 8 }, d13_skipped: 0 };
+    let mut st = Stats { sets: 0, accepted: 0, rejected: 0, d13_sets: 0, d13_child_runs: 0, orders_checked: 0, incr_checked: 0, renders: 0, block_renders: 0, d8_shape: 0, d13_seen: 0, d13_cap: if thorough { 40 } else { 8 }, d13_skipped: 0, include_checked: 0 };
 
     // corpus: hand-written edge cases first
     for s in malformed_sets() {
@@ -1149,6 +1178,7 @@ fn main() {
     meta.extra.insert("block_renders".into(), json!(st.block_renders));
     meta.extra.insert("batch_orders_checked".into(), json!(st.orders_checked));
     meta.extra.insert("incremental_orders_checked".into(), json!(st.incr_checked));
+    meta.extra.insert("include_renders_compared".into(), json!(st.include_checked));
     meta.extra.insert("sets_with_block_in_capture".into(), json!(st.d8_shape));
     meta.extra.insert("d13_class_sets_accepted_and_divergent".into(), json!(st.d13_sets));
     meta.extra.insert("d13_child_process_renders".into(), json!(st.d13_child_runs));
